@@ -17,7 +17,8 @@ TEXT = ("Every element of a finite, explicitly bounded space of bytecode files i
         "payload consumption with 0-8 trailing sentinel bytes. Exhaustive within the bound, not a proof for all files.")
 NOTE = ("Trusted: the nine CPython binaries, gen/canon.py canonicaliser (shared by both sides), the transplant argument "
         "(same marshal layout inside a version class). Not covered: versions <= 2.2, PyPy, Graal (no interpreter).")
-RULE = ("every program of grammar G with <= k statements x 4 scopes, compiled and marshalled by each of the nine "
+RULE = ("(ii) every stream of the constant grammar shared with C10 (value shapes x marshal format versions x <=d encoding "
+        "deviations), compared on the whole code tree and on exact consumption; (i) every program of grammar G with <= k statements x 4 scopes, compiled and marshalled by each of the nine "
         "reference CPythons (quick k=1, thorough k=2), plus every re-heading of each payload to the final-release "
         "magic of every other version with the same marshal layout (transplants, with the marshal format version "
         "that target reads); a case is one (pyc bytes, expected canonical tree) pair; distinct = distinct pyc byte "
@@ -37,7 +38,7 @@ def bounds(tier):
 
 def prepare(tier):
     k = 1 if tier == "quick" else 2
-    return {"progs": common.datasets("progs", common.REFS, k)}
+    return {"progs": common.datasets("progs", common.REFS, k), "consts": common.datasets("consts", common.REFS, tier)}
 
 
 def header_for(ver, magic_int):
@@ -62,8 +63,17 @@ def marshal_version_for(ver):
 
 
 def cases(plan, tier, shard, nshards, host):
+    from gen.canon import hx
+
     for v in common.REFS:
         src_ver = common.vt(v)
+        # (ii) constant shapes: every encoding of the value grammar (dataset shared with C10), whole tree + consumption
+        hdr = header_for(src_ver, m_magic.FINAL[src_ver])
+        for idx, rec in common.read_dataset(plan["consts"][v], shard, nshards):
+            if idx < 0:
+                continue
+            yield {"kind": "consts", "id": rec["id"], "ver": list(src_ver), "tver": list(src_ver), "pyc": hx(hdr) + rec["payload"],
+                   "hdrlen": len(hdr), "tree": rec["tree"], "textfloat": rec["textfloat"]}
         native_mv = marshal_version_for(src_ver)
         _, klass = m_magic.layout_class(src_ver)
         for idx, rec in common.read_dataset(plan["progs"][v], shard, nshards):
@@ -188,7 +198,7 @@ def run_case(case, ctx):
     if co is not None:
         if tuple(res[0][:2]) != tver:
             ctx.violation("%d.%d:version-reported:%s" % (tver[0], tver[1], res[0][:2]), "wrong version tuple")
-        d = tree_diff(case["tree"], xcanon(co, tver), nan_loose=tver < (2, 5))
+        d = tree_diff(case["tree"], xcanon(co, tver), nan_loose=(tver < (2, 5) or bool(case.get("textfloat"))))
         if d:
             ctx.violation(sig_of_diff(tver, d), "load_module tree differs at %s: expected %s got %s" % d)
     # (b) the portable unmarshaller directly, with consumption accounting
@@ -205,7 +215,7 @@ def run_case(case, ctx):
                           "load_code consumed %d of %d payload bytes (tail %r)" % (fp.tell(), len(payload), tail))
             break
         if tail == b"":
-            d = tree_diff(case["tree"], xcanon(co2, tver), nan_loose=tver < (2, 5))
+            d = tree_diff(case["tree"], xcanon(co2, tver), nan_loose=(tver < (2, 5) or bool(case.get("textfloat"))))
             if d:
                 ctx.violation(sig_of_diff(tver, d), "load_code tree differs at %s: expected %s got %s" % d)
 
